@@ -184,6 +184,35 @@ def _name_lits(t):
     return rec(t)
 
 
+UP_SCALE, UP_SHAPE = 2, (2, 3)
+
+
+def upsampled():
+    """scale > 1: the field handed to `custom` by the impulse-response methods, as per-sample expressions of the
+    symbolic complex input (ur_i_j, ui_i_j)"""
+    g = Gen()
+    args = shim.names('ur', UP_SHAPE) + shim.names('ui', UP_SHAPE)
+    for tag, f in (('ir', 'impulse_response_fresnel'), ('sir', 'seperable_impulse_response_fresnel')):
+        ns = shim.base_namespace(); cap = {}
+        shim.load('odak/learn/wave/util.py', ['calculate_amplitude', 'calculate_phase', 'generate_complex_field'], ns)
+        ns['get_propagation_kernel'] = lambda **kw: 'KERNEL'
+        def custom(field_scale, H, zero_padding=False, aperture=1.):
+            cap['f'] = field_scale
+            return field_scale
+        ns['custom'] = custom
+        shim.load('odak/learn/wave/classical.py', [f], ns)
+        u = shim.csym('u', UP_SHAPE)
+        ns[f](u, shim.var('k'), shim.var('z'), shim.var('dx'), shim.var('lam'), scale=UP_SCALE, samples=[2, 2, 1, 1])
+        fs = cap['f']
+        if fs.shape != (UP_SHAPE[0] * UP_SCALE, UP_SHAPE[1] * UP_SCALE):
+            raise shim.TraceError('%s: upsampled field shape %s' % (f, fs.shape))
+        for i in range(fs.shape[0]):
+            for j in range(fs.shape[1]):
+                e = shim.CE.lift(fs[i, j])
+                g.add('up_%s_re_%d_%d' % (tag, i, j), args, e.re); g.add('up_%s_im_%d_%d' % (tag, i, j), args, e.im)
+    return g
+
+
 HEADER = ('(* GENERATED on every run by the operator-level tracer from the current /repo sources. *)\n'
           'From Coq Require Import Reals.\nFrom Coquelicot Require Import Complex.\n'
           'From OdakV Require Import Base.RealAux Wave.Fields.\nOpen Scope R_scope.\n'
